@@ -21,7 +21,7 @@ META = {
                     "reference gridding by construction (events strictly inside cells and magnitude bins)", "tolerance 1e-9*(1+|x|)"],
     "deciding": ["e2e:N", "e2e:S", "e2e:M", "e2e:PL", "e2e:RM", "e2e:MLL", "post:_compute_likelihood", "post:MLL_score", "ties:twin-catalogs"],
 }
-META["added"] = 'Added: MLL full_calculation, events far above the last magnitude edge, file-streamed forecasts with filters, observations gridding exactly like a synthetic catalog (bit-for-bit ties, monitor ties:twin-catalogs). observations with events below the lowest magnitude edge.'
+META["added"] = 'Added: MLL full_calculation, events far above the last magnitude edge, file-streamed forecasts with filters, observations gridding exactly like a synthetic catalog (bit-for-bit ties, monitor ties:twin-catalogs). observations with events below the lowest magnitude edge. catalogs bound to another region object, magnitudes one ulp below an edge.'
 MANIFEST = {
     "technique": "independent re-implementation of the documented statistics as oracle over the real tests' results; runtime post-conditions on _compute_likelihood / cumulative_square_diff / MLL_score; RNG boundary log (numpy.random.choice) aligning each resampled test-distribution entry with its actual resample; status/None signalling checked on empty and undersampled observations",
     "level_text": "For each generated catalog forecast and observation the six public tests run for real; every test-distribution entry, observed statistic, quantile pair and status is compared with an independent implementation of the documented definition fed by reference gridding, including the explicit signalling of undefined statistics (empty observation -> not-valid / None; empty synthetic catalogs skipped where undefined; events in never-sampled cells excluded and flagged 'undersampled').",
@@ -88,6 +88,10 @@ def build(fc, source, tmp):
         k = numpy.array([e[1] for e in evs])
         lons, lats = fixtures.events_in_cells(reg, cells, None, frac=numpy.full((len(evs), 2), 0.5))
         mv = mags[k] + 0.03
+        # every fifth event is "practically on" its bin's lower edge: one ulp below it (e.g. 5.6 + 0.1 = 5.699999999999999), which the documented
+        # round-off tolerance of the binning counts into that bin - per-catalog histograms and mean rates must agree on that
+        onedge = ((numpy.arange(len(evs)) + cells + k) % 5 == 2) & (k >= 1)
+        mv = numpy.where(onedge, numpy.nextafter(mags[k], -numpy.inf), mv)
         # the last magnitude bin is open-ended: every other last-bin event lies far above the last edge
         far = (k == fc["nmag"] - 1) & ((numpy.arange(len(evs)) + cells) % 2 == 0)
         mv = numpy.where(far, mags[-1] + 2.35, mv)
@@ -99,6 +103,13 @@ def build(fc, source, tmp):
         return fixtures.catalog(lons, lats, mv, region=reg, catalog_id=cid, name=name)
     cats = [mk(evs, j) for j, evs in enumerate(fc["cats"])]
     if source == "memory":
+        if len(fc["cats"]) % 2 and reg.num_nodes > 1:
+            # the synthetic catalogs arrive bound to ANOTHER region object (the same cells listed in reverse, other magnitude edges): the forecast's
+            # own region is the one every statistic is gridded on
+            from csep.core.regions import CartesianGrid2D
+            other = CartesianGrid2D.from_origins(reg.origins()[::-1].copy(), dh=reg.dh, magnitudes=numpy.asarray(mags) + 0.05)
+            for c_ in cats:
+                c_.region = other
         f = CatalogForecast(catalogs=cats, region=reg, n_cat=len(cats), name="cf")
     else:
         path = os.path.join(tmp, "fc_%s.csv" % source)
